@@ -71,6 +71,14 @@ func Op(op, name string, args ...M) M {
 	}
 }
 
+// Global matches the value of a package-level variable.
+func Global(name string) M {
+	return func(t *flow.Term, _ Bind) bool {
+		t = flow.StripConv(t)
+		return t.Op == flow.OpGlobal && t.Name == name
+	}
+}
+
 // Call matches a static library call.
 func Call(name string, args ...M) M { return Op(flow.OpCall, name, args...) }
 
